@@ -301,6 +301,38 @@ def main():
                 "why": "app/main.pn imports its sibling util.pn (FACTOR = 3) and lib/tool.pn, which imports ITS sibling util.pn (FACTOR = 2): "
                        "scaled(5) + 7 * FACTOR = 10 + 21 = 31 in every file order; got " + da[:160],
                 "files": dict(dfiles), "order": [dfiles[j][0] for j in o], "harness_request": rq})
+    # named lengths across modules: the constant in one module, a pub structure whose member type names it - directly, inside
+    # an array, behind pointers - in a second module, the user in a third; every file order (the order in which the importer
+    # types the two imported declarations must follow the dependency, not the command line)
+    LEN_TYPES = [("[N]i32", "cells[1]", "", "[1, 20, 3]"),
+                 ("[2][N]i32", "cells[1][1]", "", "[[1, 2, 3], [4, 20, 6]]"),
+                 ("&[N]i32", "cells[1]", "var cells: [N]i32 = [1, 20, 3];", "&cells"),
+                 ("&[2][N]i32", "cells[1][1]", "var cells: [2][N]i32 = [[1, 2, 3], [4, 20, 6]];", "&cells"),
+                 ("&&[N]i32", "cells[1]", "var cells: [N]i32 = [1, 20, 3];\n\tvar pc: &[N]i32 = &cells;", "&&pc"),
+                 ("[N][2]i32", "cells[1][1]", "", "[[1, 2], [3, 20], [5, 6]]"),
+                 ("&[N][2]i32", "cells[1][1]", "var cells: [N][2]i32 = [[1, 2], [3, 20], [5, 6]];", "&cells"),
+                 ("[2]&[N]i32", "cells[1][1]", "var row: [N]i32 = [1, 20, 3];", "[&row, &row]")]
+    lreqs, lmeta = [], []
+    for lt, access, setup, value in LEN_TYPES:
+        lfiles = [("dims.pn", "pub const N: usize = 3;\n"),
+                  ("grid.pn", 'import "dims.pn";\npub struct GridRef\n{\n\tcells: %s,\n\tweight: i32,\n}\n'
+                              'pub fn pick(g: GridRef) -> i32\n{\n\treturn: g.%s + g.weight\n}\n' % (lt, access)),
+                  ("main.pn", 'import "dims.pn";\nimport "grid.pn";\nfn main() -> i32\n{\n\t%s\n\tvar g = GridRef { cells: %s, weight: 22 };\n'
+                              '\treturn: pick(g)\n}\n' % (setup, value))]
+        for o in _it.permutations(range(3)):
+            lreqs.append("alpha\trun\t" + "\t".join(x for j in o for x in (lfiles[j][0], esc(lfiles[j][1]))))
+            lmeta.append((lt, o, lfiles))
+    for (lt, o, lfiles), rq, la in zip(lmeta, lreqs, run_harness(lreqs)):
+        total += 1
+        lh_, ld_ = kv(la)
+        dist["named-length-across-modules:" + lh_] += 1
+        if lh_ == "ok" and ld_.get("status") == "42":
+            agreeing += 1
+        else:
+            rep.violation("lengths-across-modules:%s:%s" % (lt, "".join(map(str, o))), {
+                "why": "a pub structure with a member of type %s (N a pub constant of another module) used from a third module: 20 + 22 = 42 "
+                       "in every file order; got %s" % (lt, la[:200]),
+                "files": dict(lfiles), "order": [lfiles[j][0] for j in o], "harness_request": rq})
     # the silent variant: the importer has a PRIVATE constant of the same name as the private constant that the spliced
     # initialiser mentions - the pub constant then has another value in the importer than in its own module (F69)
     cap = [("lib.pn", "const X: i32 = 3;\npub const Y: i32 = X + 1;\npub fn y_at_home() -> i32\n{\n\treturn: Y\n}\n"),
